@@ -513,7 +513,9 @@ class Bench:
                 return {'status': 'must_refuse', 'why': 'overdraw', 'pair': k, 'margin_rel': margin_rel}
             # the stored floats of a fresh vessel are the doubles nearest to the user's decimals (0.7 mmol is not 7/10 in a
             # float): a request that equals their sum up to that representation error is the whole content
-            exactish = fresh_src and k == 0 and T > 0 and abs(m_src) <= T * F(1, 2 ** 46)
+            # (only where the total is a plain sum of stored amounts - moles, activity; a total in grams or litres goes through
+            # molar mass and density, and the stored moles of '9 kg' under mol storage are 9 kg only to within 1e-10 mol x M)
+            exactish = fresh_src and k == 0 and T > 0 and (m_src == 0 or (unit in ('mol', 'U') and abs(m_src) <= T * F(1, 2 ** 46)))
             if m_src < band_src:
                 if exactish and self.exact_total_ok(T if m_src == 0 else value, unit):
                     self.stats['probe:whole_content_transfer'] += 1
